@@ -40,7 +40,7 @@ import (
 
 func genGrp(a hx.Args) {
 	r := hx.NewRng(a.Seed)
-	n := a.N(400, 3000)
+	n := a.N(300, 3000)
 	for i := 0; i < n; i++ {
 		bal := hx.Pick(r, []int{0, 1, 2, 3, 3, 4, 4, 4}) // KIP-848 (4) and cooperative (3) weigh more: they have the larger protocols
 		parts := 2 + r.Intn(6)
